@@ -132,6 +132,9 @@ func (a *c14actor) HandleMessage(from gen.PID, message any) error {
 	if err, ok := message.(error); ok && err == gen.TerminateReasonShutdown {
 		return gen.TerminateReasonShutdown // "please terminate with this reason"
 	}
+	if b, ok := message.([]byte); ok && len(b) > 8 {
+		message = append([]byte(nil), b[:8]...) // numbered streams (c13nodes): keep the number, not the payload
+	}
 	a.rec.add(a.PID(), message)
 	return nil
 }
